@@ -177,7 +177,11 @@ def run_one(spec):
     elif kind == 'recycle':
         pool = bp.Pool(spec.get('n', 2), maxtasksperchild=spec.get('maxtasks', 2), threads=True)
         rs = [pool.apply_async(t_pid, (i,)) for i in range(spec.get('jobs', 12))]
-        pids = [outcome(r, wait=20) for r in rs]
+        deadline = time.time() + spec.get('deadline', 45)
+        while time.time() < deadline and not all(r.ready() for r in rs):
+            time.sleep(0.1)
+        res['all_ready_after_s'] = round(time.time() - t0, 2)
+        pids = [outcome(r, wait=0) for r in rs]
         res['unresolved'] = sum(1 for p in pids if p[0] != 'ok')
         counts = {}
         for p in pids:
@@ -185,6 +189,7 @@ def run_one(spec):
                 counts[p[1]] = counts.get(p[1], 0) + 1
         res['max_jobs_per_pid'] = max(counts.values()) if counts else 0
         res['quota'] = spec.get('maxtasks', 2)
+        time.sleep(1.5)      # let workers that are on their way out finish exiting
         pool.terminate()
     else:
         res['error'] = 'unknown scenario'
@@ -233,7 +238,17 @@ def main():
 
         def watchdog():
             time.sleep(limit)
-            sys.stdout.write('\n' + json.dumps(dict(kind=spec['kind'], spec=spec, hang=True, wall_s=limit)) + '\n')
+            stacks = ''
+            try:
+                import faulthandler
+                import tempfile
+                with tempfile.TemporaryFile('w+') as fh:
+                    faulthandler.dump_traceback(file=fh, all_threads=True)
+                    fh.seek(0)
+                    stacks = fh.read()[-6000:]
+            except Exception:      # noqa
+                pass
+            sys.stdout.write('\n' + json.dumps(dict(kind=spec['kind'], spec=spec, hang=True, wall_s=limit, stacks=stacks)) + '\n')
             sys.stdout.flush()
             os.killpg(os.getpgid(0), signal.SIGKILL)
         threading.Thread(target=watchdog, daemon=True).start()
